@@ -45,6 +45,7 @@
 (*                       denominator-3 frames and vice versa               *)
 (*   MemoAgrees          the table of pre-rotated single-crystal tensors   *)
 (*                       used by the enumerator equals direct evaluation   *)
+(*                       of Average (and of AverageByPosition)             *)
 (*   AlignedReturnsC     one grain with A = I, f = 1, phi = 1 returns C    *)
 (*   DeviationLocus      by-position = by-identity exactly on assemblages  *)
 (*                       listed in ordinal order ((ol), (ol,en))           *)
@@ -78,7 +79,7 @@ VARIABLES c,        \* the case / lemma instance / table entry (never changes)
 vars == <<c, res>>
 
 Thorough == Tier = "thorough"
-Mod(a, b) == a % b
+Mod(a, b) == a % b          \* kept in one place: a SANY error message quoting a line with the percent sign crashes its printer
 
 \* ------------------------------------------------------------------ phases
 Phases == <<"olivine", "enstatite">>             \* ordinal order: MineralPhase.olivine = 0, enstatite = 1
@@ -205,24 +206,26 @@ CaseOf(tag, cf, phi, l, nr, t, n, ns, v) ==
 
 TexIds(l) == IF Thorough THEN 1..NR(l) ELSE {t \in 1..NR(l) : Mod(t, 5) = 1}
 VolIds(n, t, ns) == IF Thorough THEN 1..NVol(n) ELSE {1 + Mod(t + ns, Len(VolsNorm(n))), NVol(n)}
-GridFor(cf, l, n, ns) == UNION {{CaseOf("grid", cf, phi, l, NR(l), t, n, ns, v) : phi \in PhiGrid(cf.asm), v \in VolIds(n, t, ns)}
-                                 : t \in TexIds(l)}
-GridCases == UNION {GridFor(cf, l, n, ns) : cf \in Configs, l \in 1..NLib, n \in 1..3, ns \in 1..2}
+\* grid cases are enumerated by Init from their seeds (a UNION of 5e4 records is quadratic in TLC)
+IsGridCase(x) == \E cf \in Configs, l \in 1..NLib, n \in 1..3, ns \in 1..2 : \E t \in TexIds(l) :
+                   \E phi \in PhiGrid(cf.asm), v \in VolIds(n, t, ns) : x = CaseOf("grid", cf, phi, l, NR(l), t, n, ns, v)
+GridSeeds == {y \in Configs \X (1..NLib) \X (1..3) \X (1..2) \X (1..40) : y[5] \in TexIds(y[2])}
+GridCount == FoldSet(LAMBDA y, acc : acc + Cardinality(PhiGrid(y[1].asm)) * Cardinality(VolIds(y[3], y[5], y[4])), 0, GridSeeds)
 AlignedCases == {[kind |-> "case", tag |-> "aligned", asm |-> <<ph>>, order |-> <<ph>>, phi |-> <<QOne>>, lib |-> l,
                   ns |-> 1, n |-> 1,
                   mins |-> <<[phase |-> ph, n |-> 1, ori |-> << <<IdIdx>> >>, vol |-> << <<QOne>> >>]>>]
                    : ph \in {"olivine", "enstatite"}, l \in 1..NLib}
-CaseStates == GridCases \cup AlignedCases
 
 \* co-rotation instances: octahedral textures x denominator-3 frames and vice versa (built-ins: octahedral only)
 CoRotPlans == {[l |-> 1, nr |-> 24, qs |-> IF Thorough THEN {2, 5, 9, 14, 18, 23} ELSE {5, 14, 23}],
                [l |-> 2, nr |-> 24, qs |-> IF Thorough THEN {25, 27, 30, 33, 36, 38, 39, 40} ELSE {26, 33, 40}],
                [l |-> 3, nr |-> 40, qs |-> IF Thorough THEN {2, 5, 9, 14, 18, 23} ELSE {3, 10, 19}]}
 CoRotTex == IF Thorough THEN {1, 4, 12, 17, 29, 38} ELSE {2, 27}
-CoRotStates == UNION {{[kind |-> "corot", q |-> q,
-                        base |-> CaseOf("corot", cf, IF Len(cf.asm) = 1 THEN <<QOne>> ELSE <<<<1, 4>>, <<3, 4>>>>,
-                                        p.l, p.nr, t, n, 1, 1 + Mod(t, NVol(n)))] : q \in p.qs}
-                       : p \in CoRotPlans, cf \in Configs, t \in CoRotTex, n \in 1..2}
+IsCoRotState(x) == \E p \in CoRotPlans, cf \in Configs, t \in CoRotTex, n \in 1..2 : \E q \in p.qs :
+   x = [kind |-> "corot", q |-> q,
+        base |-> CaseOf("corot", cf, IF Len(cf.asm) = 1 THEN <<QOne>> ELSE <<<<1, 4>>, <<3, 4>>>>,
+                        p.l, p.nr, t, n, 1, 1 + Mod(t, NVol(n)))]
+CoRotCount == FoldSet(LAMBDA p, acc : acc + Cardinality(p.qs), 0, CoRotPlans) * Cardinality(Configs) * Cardinality(CoRotTex) * 2
 
 \* basis x rotation instances for the invariance of the functionals
 BasisRots == SmallRots \cup (IF Thorough THEN GenericRots(2) ELSE {})
@@ -248,8 +251,8 @@ Tables == [rots |-> [r \in 1..40 |-> RotSeq[r]], identity |-> IdIdx,
            KV |-> FuncTerm(KV), GV |-> FuncTerm(GV), lawKV |-> LawTerm("KV"), lawGV |-> LawTerm("GV"),
            vidx |-> [p \in I3 |-> [q \in I3 |-> VoigtIdx(p, q)]], vpair |-> [i \in I6 |-> VoigtPair(i)],
            tol |-> Tol, phases |-> Phases,
-           counts |-> [cases |-> Cardinality(CaseStates), rejects |-> Cardinality(RejectStates),
-                       basis |-> Cardinality(BasisStates), corot |-> Cardinality(CoRotStates)]]
+           counts |-> [cases |-> GridCount + Cardinality(AlignedCases), rejects |-> Cardinality(RejectStates),
+                       basis |-> Cardinality(BasisStates), corot |-> CoRotCount]]
 
 \* ------------------------------------------------------------------ measures recorded from the real code
 TraceLog == IF Mode = "measures" THEN ndJsonDeserialize(IOEnv.TRACE_FILE) ELSE <<>>
@@ -259,8 +262,9 @@ Required(e) == {"symmetry", "corotation", "aligned"}
                \cup (IF e.two THEN {"phaseOrder", "mineralOrder"} ELSE {})
 
 \* ------------------------------------------------------------------ behaviour: one-shot evaluation
-Init == /\ \/ Mode = "generate" /\ \/ c \in CaseStates
-                                   \/ c \in CoRotStates
+Init == /\ \/ Mode = "generate" /\ \/ IsGridCase(c)
+                                   \/ c \in AlignedCases
+                                   \/ IsCoRotState(c)
                                    \/ c \in BasisStates
                                    \/ c \in RejectStates
                                    \/ c = [kind |-> "tables"]
@@ -275,6 +279,7 @@ Evaluate(x) ==
              Qm == RotSeq[x.q]
              direct == Average(Concrete(x.base.mins, MId), x.base.asm, x.base.phi, T)
          IN [done |-> TRUE, direct |-> direct, memo |-> ById(x.base),
+             devDirect |-> AverageByPosition(Concrete(x.base.mins, MId), x.base.asm, x.base.phi, T), devMemo |-> ByPos(x.base),
              lhs |-> Average(Concrete(x.base.mins, Qm), x.base.asm, x.base.phi, T),
              rhs |-> [s \in DOMAIN direct |-> M6Eval(ToVoigt(TRotate(ToTensor(direct[s]), Qm)))]]
     [] x.kind = "basis" -> [done |-> TRUE, rot |-> M6Eval(ToVoigt(TRotate(ToTensor(BasisMat6(x.b)), x.R)))]
@@ -301,7 +306,7 @@ BasisModuliG == Done("basis") => GV(res.rot) = GV(BasisMat6(c.b))
 BasisSymmetric == Done("basis") => IsSym6(res.rot)
 NegFunctionalInvariant == Done("basis") => KWrong(res.rot) = KWrong(BasisMat6(c.b))
 CoRotation == Done("corot") => res.lhs = res.rhs
-MemoAgrees == Done("corot") => res.direct = res.memo
+MemoAgrees == Done("corot") => (res.direct = res.memo /\ res.devDirect = res.devMemo)
 RejectionOrderFree == Done("reject") => res.outcome = Outcome(Reverse(c.shapes))
 RejectionSane == Done("reject") =>
    (res.outcome = "ok" <=> \A m \in DOMAIN c.shapes : /\ c.shapes[m].n = c.shapes[1].n
